@@ -387,7 +387,7 @@ class Metadata(CbMixin, ProgMixin):
                     hasher = HasherV2(path, self.piece_length, True)
                     if entry["root"] == hasher.root:
                         dest_path = os.path.join(dest, entry["full"])
-                        copypath(entry["path"], dest_path)
+                        copypath(path, dest_path)
                         self._update()
                         self.cb(path, dest_path, self.num_pieces)
                         break
